@@ -572,7 +572,9 @@ pub fn worker(wi: usize, wn: usize, tier: &str) {
     let rt = tokio::runtime::Builder::new_multi_thread().worker_threads(1).max_blocking_threads(4).enable_all().build().unwrap();
     let scratch = vcore::Scratch::new(&format!("c15w{wi}"));
     let mut st = Stats::default();
-    let metrics: Vec<&str> = if tier == "thorough" { vec!["euclidean", "cosine", "inner_product"] } else { vec!["euclidean", "cosine"] };
+    // "cosine!" = cosine with hnsw.disable_normalization_check = true (the index then accepts
+    // whatever the normalisation step hands it)
+    let metrics: Vec<&str> = if tier == "thorough" { vec!["euclidean", "cosine", "inner_product", "cosine!", "inner_product!"] } else { vec!["euclidean", "cosine", "cosine!"] };
     let singles = single_requests();
     let sitems = stream_items();
     let mut idx = 0usize;
